@@ -39,7 +39,7 @@ func init() {
 	register(&Property{
 		ID:    "C30",
 		Level: "exploration",
-		Rule: "cases = seeded histories that set, slide, clear and reload expiry times (future, past, zero, pre-epoch via patch meta) and advance the simulated clock across expiry instants, interleaved with ShiftExpiredTreasures (with and without a limit), expiry-ordered GetByIndex reads and plain reads; " +
+		Rule: "cases = seeded histories that set, slide, clear and reload expiry times (future, past, zero, pre-epoch via patch meta) and advance the simulated clock across expiry instants, interleaved with ShiftExpiredTreasures (with and without a limit), PatchExpiredTreasures (new lease for every expired body; key-only records with an expiry stay as they are), expiry-ordered GetByIndex reads and plain reads; " +
 			"oracle = 'expired iff expiry != 0 and expiry < now' applied to the reference model on every path, before and after reload; non-trivial = the clock crossed at least one expiry instant between two reads; distinct = hash of (op kinds, expiry classes, final state)",
 		Gen: func(seed uint64, tier string) Case { return genC07(seed, tier, "C30") },
 		Run: runC07,
@@ -52,7 +52,7 @@ func init() {
 
 // ops: put A=[key, val, cOff, uOff, eOff] (seconds relative to the run's base; 0 = leave unset / unchanged)
 //      del A=[key]; q A=[index, order, from, limit, fromOff, toOff]; shiftexp A=[howMany]; adv A=[ms]; idle; restart;
-//      pmeta A=[key, mode] mode 0 clear expiry, 1 slide +30s, 2 pre-epoch, 3 past
+//      pmeta A=[key, mode] mode 0 clear expiry, 1 slide +30s, 2 pre-epoch, 3 past; putvoid A=[key, eOff]; patchexp A=[leaseSeconds]
 func genC07(seed uint64, tier string, prop string) Case {
 	r := newRng(seed, "c07"+prop)
 	c := Case{Prop: prop, Seed: seed, Cfg: map[string]int64{}}
@@ -70,11 +70,17 @@ func genC07(seed uint64, tier string, prop string) Case {
 		key := int64(r.intn(int(nkeys)))
 		var pick int
 		if prop == "C07" {
-			pick = r.pick(40, 8, 36, 0, 0, 4, 4, 0)
+			pick = r.pick(40, 8, 36, 0, 0, 4, 4, 0, 0, 0)
 		} else {
-			pick = r.pick(34, 6, 18, 14, 14, 3, 3, 8)
+			pick = r.pick(34, 6, 18, 14, 14, 3, 3, 8, 5, 5)
 		}
 		switch pick {
+		case 8:
+			// a key-only (void) record that carries an expiry: it is listed and claimed like any other expired record
+			c.Ops = append(c.Ops, Op{K: "putvoid", A: []int64{100 + key, []int64{-50, -5, -1, 2, 5, 30}[r.intn(6)]}})
+		case 9:
+			// PatchExpiredTreasures over everything that is expired: bodies get a new lease, the others stay as they are
+			c.Ops = append(c.Ops, Op{K: "patchexp", A: []int64{[]int64{2, 4, 40}[r.intn(3)]}})
 		case 0:
 			c.Ops = append(c.Ops, Op{K: "put", A: []int64{key, int64(r.intn(9)) - 4, off(), off(), off()}})
 		case 1:
@@ -421,6 +427,76 @@ func (g *idxRun) idxStep(i int, op Op, sw string) *Result {
 		if len(m) == 0 {
 			delete(g.model, sw)
 			g.built = map[int64]bool{}
+		}
+	case "putvoid":
+		key := keyName(op.A[0])
+		if m[key] != nil {
+			return nil // one life per void key: a second Set would only re-save it
+		}
+		n := &mrec{Kind: "void", ExpiredAt: g.at(op.A[1])}
+		resp, err := cl.set(sw, []*hydrapb.KeyValuePair{toKV(key, n)}, true, true)
+		if cl.hung != "" {
+			return nil
+		}
+		if err != nil || resp == nil || len(resp.Swamps) != 1 || len(resp.Swamps[0].KeysAndStatuses) != 1 {
+			return g.fail("set_error", "op %d: Set(%s, void): %v %v", i, key, resp, err)
+		}
+		if g.model[sw] == nil {
+			g.model[sw] = mswamp{}
+		}
+		g.markMoved(nil, n)
+		g.model[sw][key] = n
+	case "patchexp":
+		if len(m) == 0 {
+			return nil
+		}
+		now := time.Now().UnixNano()
+		lease := now + op.A[0]*int64(time.Second)
+		var resp *hydrapb.PatchExpiredTreasuresResponse
+		var err error
+		cl.call("PatchExpiredTreasures", func() {
+			resp, err = g.srv.gw.PatchExpiredTreasures(ctxBg, &hydrapb.PatchExpiredTreasuresRequest{IslandID: 1, SwampName: sw, HowMany: 0,
+				Meta: &hydrapb.PatchMeta{SetExpiredAt: timestamppb.New(time.Unix(0, lease))}})
+		})
+		if cl.hung != "" {
+			return nil
+		}
+		if err != nil || resp == nil {
+			return g.fail("patch_expired_error", "op %d: PatchExpiredTreasures: %v", i, err)
+		}
+		got := map[string]hydrapb.PatchResult_StatusCode{}
+		for _, p := range resp.Patched {
+			if _, dup := got[p.Key]; dup {
+				return g.fail("patch_expired_reports_a_record_twice", "op %d: %s twice in one reply", i, p.Key)
+			}
+			got[p.Key] = p.Status
+		}
+		var exp []string
+		for k, r := range m {
+			if r.ExpiredAt != 0 && r.ExpiredAt < now {
+				exp = append(exp, k)
+			}
+		}
+		sort.Strings(exp)
+		if len(got) != len(exp) {
+			return g.fail("patch_expired_wrong_set", "op %d: PatchExpiredTreasures at now=base%+dms reported %v; the model has expired records %v (expiry offsets ms %v)", i, (now-g.base)/1e6, got, exp, g.expOffsets(m, exp))
+		}
+		for _, k := range exp {
+			st, ok := got[k]
+			if !ok {
+				return g.fail("patch_expired_wrong_set", "op %d: PatchExpiredTreasures did not report the expired record %s (reported %v)", i, k, got)
+			}
+			if m[k].Kind == "body" {
+				if st != hydrapb.PatchResult_PATCHED {
+					return g.fail("patch_expired_status", "op %d: expired record %s with a msgpack body was answered %v", i, k, st)
+				}
+				n := m[k].clone()
+				n.ExpiredAt = lease
+				g.markMoved(m[k], n)
+				m[k] = n
+			} else if st == hydrapb.PatchResult_PATCHED {
+				return g.fail("patch_expired_status", "op %d: key-only record %s reported as PATCHED", i, k)
+			}
 		}
 	case "q":
 		if len(m) == 0 {
